@@ -191,6 +191,9 @@ func verifLbcVS(id, svc string, ver int, opts map[string]string) *conf_v1.Virtua
 	if s := opts["tls"]; s != "" {
 		vs.Spec.TLS = &conf_v1.TLS{Secret: s}
 	}
+	if c := opts["cls"]; c != "" {
+		vs.Spec.IngressClass = c // a VirtualServer of another controller's class
+	}
 	return vs
 }
 
